@@ -336,7 +336,14 @@ fn feed_fixed_block_size<T: Source, C: Fill>(
             let mut framebuf_and_ctx = (&mut numbuf.framebuf, &mut context);
             #[cfg(flacenc_verif)]
             crate::verif::event("f_read_begin", bufid, frame_count);
-            let read_samples = src.read_samples(block_size, &mut framebuf_and_ctx)?;
+            let read_samples = match src.read_samples(block_size, &mut framebuf_and_ctx) {
+                Ok(n) => n,
+                Err(e) => {
+                    // the workers must be stopped also when the source fails.
+                    parbuf.request_stop(workers);
+                    return Err(e);
+                }
+            };
             if read_samples == 0 {
                 #[cfg(flacenc_verif)]
                 crate::verif::event("f_eof", frame_count, bufid);
@@ -413,6 +420,8 @@ pub fn encode_with_fixed_block_size<T: Source>(
         block_size,
     )?);
     let parsink: Arc<ParSink<Frame>> = Arc::new(ParSink::new());
+    // the error of the earliest frame that could not be encoded, if any.
+    let first_error: Arc<Mutex<Option<(usize, VerifyError)>>> = Arc::new(Mutex::new(None));
     #[cfg(flacenc_verif)]
     crate::verif::event("m_workers", worker_count, worker_count * constant::par::FRAMEBUF_MULTIPLICITY);
 
@@ -422,6 +431,7 @@ pub fn encode_with_fixed_block_size<T: Source>(
             let parsink = Arc::clone(&parsink);
             let stream_info = stream.stream_info().clone();
             let config = Arc::clone(&config);
+            let first_error = Arc::clone(&first_error);
             thread::spawn(move || {
                 while let Some(bufid) = parbuf.pop_encode_queue() {
                     #[cfg(flacenc_verif)]
@@ -443,7 +453,17 @@ pub fn encode_with_fixed_block_size<T: Source>(
                     crate::verif::event("w_encoded", frame_number, usize::from(encode_result.is_ok()));
                     encode_result.map_or_else(
                         |e| {
-                            unreachable!("{}, err={:?}", panic_msg::ERROR_NOT_EXPECTED, e);
+                            // give the buffer back so that the feeder is never starved, and
+                            // keep the error of the earliest failing frame for the caller.
+                            parbuf.enqueue_refill(bufid);
+                            let e = match e {
+                                EncodeError::Config(e) => e,
+                                e => VerifyError::new("frame", &format!("{e}")),
+                            };
+                            let mut slot = first_error.lock().expect(panic_msg::MUTEX_LOCK_FAILED);
+                            if slot.as_ref().map_or(true, |(n, _)| frame_number < *n) {
+                                *slot = Some((frame_number, e));
+                            }
                         },
                         |mut frame| {
                             #[cfg(flacenc_verif)]
@@ -461,11 +481,28 @@ pub fn encode_with_fixed_block_size<T: Source>(
         .collect();
 
     let src_len_hint = src.len_hint();
-    let context = ParContext::new(Context::new(src.bits_per_sample(), src.channels()));
-    let (feed_stats, context) =
-        feed_fixed_block_size(src, block_size, worker_count, &parbuf, context)?;
+    let mut context = ParContext::new(Context::new(src.bits_per_sample(), src.channels()));
+    let feed_result =
+        feed_fixed_block_size(src, block_size, worker_count, &parbuf, &mut context)
+            .map(|(stats, _)| stats);
+    // whether or not feeding succeeded, every thread started above is stopped and joined
+    // before this function returns.
     let remaining_md5_blocks = context.request_stop();
     let context = context.finalize();
+    for h in join_handles {
+        h.join().expect(panic_msg::THREAD_JOIN_FAILED);
+    }
+    #[cfg(flacenc_verif)]
+    crate::verif::event("m_joined", worker_count, 0);
+    // A frame that failed to encode precedes (in stream order) the read that failed, so
+    // its error is the one single-threaded encoding would have returned.
+    if let Some((_frame_number, e)) = destruct_arc(first_error)
+        .into_inner()
+        .expect(panic_msg::MUTEX_DROP_FAILED)
+    {
+        return Err(e.into());
+    }
+    let feed_stats = feed_result?;
 
     info!(
         target: "flacenc::par_run_stat::jsonl",
@@ -479,12 +516,6 @@ pub fn encode_with_fixed_block_size<T: Source>(
     stream
         .stream_info_mut()
         .set_md5_digest(&context.md5_digest());
-
-    for h in join_handles {
-        h.join().expect(panic_msg::THREAD_JOIN_FAILED);
-    }
-    #[cfg(flacenc_verif)]
-    crate::verif::event("m_joined", worker_count, 0);
 
     destruct_arc(parsink).finalize(|f: Frame| stream.add_frame(f));
 
